@@ -100,3 +100,25 @@ def sha_of(qual) -> str:
     """sha256 of the function's AST with docstrings stripped (comments/formatting do not change it; any code edit does)"""
     m, node, _ = find(qual)
     return hashlib.sha256(ast.dump(_strip_doc(node)).encode()).hexdigest()
+
+
+def region(qual, first_prefix, last_prefix, params, name=None):
+    """Mechanical extraction of a code REGION of a real function: the consecutive top-level statements of `qual` from the
+    first one whose source starts with `first_prefix` to the first later one whose source starts with `last_prefix`
+    (inclusive), wrapped as a function of `params` that returns nothing.  Nothing inside the region is changed; what is
+    dropped is the rest of the enclosing function (stated by the caller in its evidence).  Returns (Module, FunctionDef, sha)."""
+    m, node, cls = find(qual)
+    body = node.body
+    texts = [ast.unparse(s) for s in body]
+    i0 = next((i for i, t in enumerate(texts) if t.startswith(first_prefix)), None)
+    if i0 is None:
+        raise KeyError(f"{qual}: no statement starts with {first_prefix!r}")
+    i1 = next((i for i in range(i0, len(texts)) if texts[i].startswith(last_prefix)), None)
+    if i1 is None:
+        raise KeyError(f"{qual}: no statement after the first starts with {last_prefix!r}")
+    stmts = body[i0:i1 + 1]
+    fn = ast.FunctionDef(name=name or (node.name + "__region"), args=ast.arguments(posonlyargs=[], args=[ast.arg(arg=p) for p in params],
+                         kwonlyargs=[], kw_defaults=[], defaults=[]), body=list(stmts), decorator_list=[], type_params=[])
+    ast.fix_missing_locations(fn)
+    sha = hashlib.sha256("\n".join(ast.dump(s) for s in stmts).encode()).hexdigest()
+    return m, fn, sha
